@@ -826,6 +826,66 @@ func (w *World) ruleRangeBeforeUse(rule string, d *dkgAnchors) {
 	}
 }
 
+
+// ruleFirstReceiptConsumed: the first share / verification vector a participant processes is the only one it ever
+// processes.  In every transition that enters an intake function with the receipt flag clear (running, before the
+// shares timeout) and acts on the message in any way (an effect inside the intake function: the message is from the
+// dealer), the receipt flag is set afterwards — whatever the outcome of the format checks.  Otherwise a second message
+// from a Byzantine dealer is accepted: it can overwrite the private share after a complaint answer corrected it
+// (the private share then no longer matches the public share), or replace the verification vector.
+func (w *World) ruleFirstReceiptConsumed(rule string, d *dkgAnchors, sys map[string]*tsys) {
+	for _, name := range []string{"plain", "qual"} {
+		ts := sys[name]
+		if ts == nil {
+			continue
+		}
+		tt := d.plain
+		if name == "qual" {
+			tt = d.qual
+		}
+		type rr struct{ role, trace, flag string }
+		for _, r := range []rr{{"share", d.role(tt, "share"), "xReceived"}, {"vector", d.role(tt, "vector"), "vAReceived"}} {
+			n, bad := 0, ""
+			var pos token.Pos
+			for i := range ts.trans {
+				t := &ts.trans[i]
+				if t.From[r.flag] != 0 || t.From["running"] != 1 || t.From["sharesTimeout"] == 1 {
+					continue
+				}
+				in := false
+				for _, tr := range t.Out.Trace {
+					if tr == r.trace {
+						in = true
+					}
+				}
+				if !in {
+					continue
+				}
+				acted := false
+				for _, e := range t.Out.Effects {
+					if strings.HasSuffix(e.Fn, ")."+r.trace) {
+						acted = true
+					}
+				}
+				if !acted {
+					continue
+				}
+				n++
+				pos = ts.methods[t.Method].Pos()
+				if t.Out.Post[r.flag] != 1 && bad == "" {
+					bad = fmt.Sprintf("the %s intake %s acts on a first message but leaves %s unset (%s → %s[%s]): a second %s from the dealer is processed as if it were the first", r.role, r.trace, r.flag, ts.witness(t.From), t.Method, strings.Join(lastN(t.Out.Lines, 5), "; "), r.role)
+				}
+			}
+			key := fmt.Sprintf("%s/%s-first-receipt-consumed", name, r.role)
+			if n == 0 {
+				w.undecided(rule, key, token.NoPos, "no transition exercises a first "+r.role+" (handler or flag not recognised)")
+				continue
+			}
+			w.check(bad == "", rule, key, pos, fmt.Sprintf("every first %s that is acted on sets %s (%d transitions)", r.role, r.flag, n), bad)
+		}
+	}
+}
+
 // ---------------- C08 ----------------
 
 func ruleC08(w *World) {
@@ -867,6 +927,60 @@ func ruleC08(w *World) {
 			}
 		}
 		w.check(badT == nil && seenOnce, "C08.R1", "qual/complaint-broadcast-at-most-once", ts.methods["HandlePrivateMsg"].Pos(), fmt.Sprintf("complaint counter never reaches 2 in %d reachable states / %d transitions", len(ts.states), n), msg+map[bool]string{true: "", false: " (no state with one complaint reached: broadcaster not recognised)"}[seenOnce])
+	}
+	// R12: only the first share / vector is ever processed (= C07.R12)
+	w.floor("C08.R12", 4)
+	w.ruleFirstReceiptConsumed("C08.R12", d, sys)
+	// R13: completeness of the first-timeout rule: whatever else the participant holds or misses, leaving the shares
+	// phase without the dealer's verification vector disqualifies the dealer (every honest participant sees the same
+	// broadcast channel, so they all do)
+	w.floor("C08.R13", 1)
+	{
+		ts := sys["qual"]
+		n, bad := 0, ""
+		for i := range ts.trans {
+			t := &ts.trans[i]
+			if t.Method != "NextTimeout" || t.From["running"] != 1 || t.From["sharesTimeout"] != 0 || t.From["vAReceived"] != 0 || t.From["disqualified"] == 1 {
+				continue
+			}
+			if t.Out.Post["sharesTimeout"] != 1 {
+				continue
+			}
+			n++
+			if t.Out.Post["disqualified"] != 1 && bad == "" {
+				bad = fmt.Sprintf("the shares timeout passes without the verification vector and the dealer is not disqualified: %s → NextTimeout[%s], state %s→%s", ts.witness(t.From), strings.Join(lastN(t.Out.Lines, 5), "; "), t.From.short(), t.Out.Post.short())
+			}
+		}
+		if n == 0 {
+			w.undecided("C08.R13", "qual/missing-vector-at-shares-timeout", token.NoPos, "no transition exercises the shares timeout without a vector")
+		} else {
+			w.check(bad == "", "C08.R13", "qual/missing-vector-at-shares-timeout", ts.methods["NextTimeout"].Pos(), fmt.Sprintf("every shares timeout without the vector disqualifies the dealer (%d transitions)", n), bad)
+		}
+	}
+	// R14: … and leaving it with the vector but without a private share makes this participant complain (the share is
+	// then obtained through the dealer's public answer, or the dealer is disqualified by everyone)
+	w.floor("C08.R14", 1)
+	{
+		ts := sys["qual"]
+		n, bad := 0, ""
+		for i := range ts.trans {
+			t := &ts.trans[i]
+			if t.Method != "NextTimeout" || t.From["running"] != 1 || t.From["sharesTimeout"] != 0 || t.From["vAReceived"] != 1 || t.From["xReceived"] != 0 || t.From["disqualified"] == 1 || t.From["isDealer"] == 1 {
+				continue
+			}
+			if t.Out.Post["sharesTimeout"] != 1 {
+				continue
+			}
+			n++
+			if t.Out.Post[ck] < 1 && bad == "" {
+				bad = fmt.Sprintf("the shares timeout passes with the vector but without a private share and no complaint is broadcast: %s → NextTimeout[%s], state %s→%s", ts.witness(t.From), strings.Join(lastN(t.Out.Lines, 5), "; "), t.From.short(), t.Out.Post.short())
+			}
+		}
+		if n == 0 {
+			w.undecided("C08.R14", "qual/missing-share-at-shares-timeout", token.NoPos, "no transition exercises the shares timeout with a vector and without a share")
+		} else {
+			w.check(bad == "", "C08.R14", "qual/missing-share-at-shares-timeout", ts.methods["NextTimeout"].Pos(), fmt.Sprintf("every shares timeout with the vector and without a share broadcasts the complaint (%d transitions)", n), bad)
+		}
 	}
 	// R2 duplicates / late messages only flag
 	for name, ts := range sys {
@@ -1289,6 +1403,9 @@ func ruleC07(w *World) {
 	w.floor("C07.R11", 10)
 	w.ruleDisqualificationRules("C07.R11", d)
 	sys := d.systems(w)
+	// R12: only the first share / vector is ever processed (a later one cannot replace a corrected share)
+	w.floor("C07.R12", 4)
+	w.ruleFirstReceiptConsumed("C07.R12", d, sys)
 	// R4 monotone verdict
 	{
 		ts := sys["qual"]
